@@ -29,7 +29,7 @@ Section Junk.
 
   Lemma judge_dec_no_sync b t : b <> SYNC0 -> (HEADER_SIZE <= length (b :: t))%nat -> J (b :: t) = Reject.
   Proof.
-    intros Hb Hl. unfold PyDecoder_judge_dec, PyDecoder_judge.
+    intros Hb Hl. unfold PyDecoder_judge_dec, PyDecoder_judge. rewrite shorter_ltb.
     assert (E : Nat.ltb (length (b :: t)) HEADER_SIZE = false) by (apply Nat.ltb_ge; exact Hl). rewrite E.
     destruct t as [|b1 t'].
     { cbn [length] in Hl. unfold HEADER_SIZE in Hl. lia. }
@@ -216,7 +216,7 @@ Section Link.
     - cbn [interleave rebase_junk length]. rewrite (scan_more _ _ _ (j_nil _ OKJ)), Nat.add_0_r. reflexivity.
     - inversion Hj; inversion Ho; subst. cbn [interleave rebase_junk].
       assert (H24 : (HEADER_SIZE <= length o)%nat).
-      { match goal with H : self_framed _ o |- _ => unfold self_framed, PyDecoder_judge_dec, PyDecoder_judge in H end.
+      { match goal with H : self_framed _ o |- _ => unfold self_framed, PyDecoder_judge_dec, PyDecoder_judge in H; rewrite shorter_ltb in H end.
         destruct (Nat.ltb (length o) HEADER_SIZE) eqn:E; [discriminate|]. apply Nat.ltb_ge in E. exact E. }
       rewrite scan_skip_junk by (try assumption; rewrite app_length; lia).
       rewrite (scan_step_accept _ OKJ) by assumption.
